@@ -3,7 +3,13 @@ package hx
 // Rng is splitmix64: every random choice of a run derives from VERIF_SEED through one state.
 type Rng struct{ s uint64 }
 
-func NewRng(seed uint64) *Rng { return &Rng{s: seed*0x9E3779B97F4A7C15 + 0x1234567} }
+func NewRng(seed uint64) *Rng {
+	// hash the seed (two splitmix rounds) so that different seeds give unrelated streams, not shifted ones
+	r := &Rng{s: seed ^ 0x5DEECE66D1234567}
+	a := r.U64()
+	b := r.U64()
+	return &Rng{s: a ^ (b << 1) ^ seed}
+}
 
 func (r *Rng) U64() uint64 {
 	r.s += 0x9E3779B97F4A7C15
